@@ -877,6 +877,53 @@ impl StorageEngine {
         Ok((rules, base_data))
     }
 
+    /// Get rules, base data and derived data for explaining tuples of `relation`
+    /// (for provenance queries about a tuple that is not an answer).
+    ///
+    /// The derived data hold the complete contents of `relation` and of every derived
+    /// relation it depends on: the relation is evaluated with all arguments free, so
+    /// that no demand restriction (magic sets) applies and the absence of a tuple from
+    /// these data means that the tuple is not derived. All three come from one snapshot.
+    pub fn get_rules_and_data_with_derived(
+        &self,
+        kg: &str,
+        relation: &str,
+    ) -> StorageResult<(
+        Vec<crate::ast::Rule>,
+        std::collections::HashMap<String, Vec<Tuple>>,
+        std::collections::HashMap<String, Vec<Tuple>>,
+    )> {
+        let db = self
+            .knowledge_graphs
+            .get(kg)
+            .ok_or_else(|| StorageError::KnowledgeGraphNotFound(kg.to_string()))?;
+
+        let snapshot = {
+            #[cfg(feature = "verif-hooks")]
+            vh::before_lock("se.query.kg_read", &|| db.is_locked_exclusive());
+            let db_guard = db.read();
+            db_guard.snapshot()
+        };
+
+        let rules = snapshot.rules.as_ref().clone();
+        let base_data = snapshot.input_tuples.as_ref().clone();
+        let derived_data = match rules.iter().find(|r| r.head.relation == relation) {
+            Some(rule) => {
+                let vars = (0..rule.head.args.len())
+                    .map(|i| format!("V{i}"))
+                    .collect::<Vec<_>>()
+                    .join(", ");
+                let goal = format!("__query__({vars}) <- {relation}({vars})");
+                snapshot
+                    .execute_with_rules_tuples_and_derived(&goal)
+                    .map_err(|e| StorageError::Other(format!("Query execution failed: {e}")))?
+                    .1
+            }
+            None => std::collections::HashMap::new(),
+        };
+        Ok((rules, base_data, derived_data))
+    }
+
     /// Save a specific knowledge graph to disk (flush persist buffers)
     pub fn save_knowledge_graph(&self, name: &str) -> StorageResult<()> {
         // Check knowledge graph exists
